@@ -913,8 +913,8 @@ var extKinds = []struct {
 }
 
 // lockedKinds: operations on names of the locked package cl that are refused
-// or ignored (unexport-pa, an open finding, is run by a probe only).
-var lockedKinds = []string{"fmakunbound", "fmakunbound-q", "makunbound", "unintern", "unexport", "defun", "use-pa"}
+// or ignored (unexport-pa was an open finding until 6778f59 and is generated like the others since).
+var lockedKinds = []string{"fmakunbound", "fmakunbound-q", "makunbound", "unintern", "unexport", "unexport-pa", "defun", "use-pa"}
 
 var failKinds = []string{"use", "unuse", "in", "export", "unexport", "setq", "defun", "defpackage", "delete", "rename"}
 
